@@ -225,7 +225,15 @@ func (r *Reader) GetMetadata(offset uint64) (*Metadata, error) {
 	if err != nil {
 		return nil, err
 	}
-	token, data, err := r.l.Next(nil)
+	// the reader's own lexer may still be inside a chunk of an earlier message
+	// iteration that was not run to its end: lex the record at the offset with a
+	// lexer of its own.
+	lexer, err := NewLexer(r.rs, &LexerOptions{SkipMagic: true})
+	if err != nil {
+		return nil, err
+	}
+	defer lexer.Close()
+	token, data, err := lexer.Next(nil)
 	if err != nil {
 		return nil, err
 	}
